@@ -285,6 +285,10 @@ func (d Diff) RenderMerge() (string, error) {
 		for i := range e.Add {
 			if isVoid(e.Add[i]) {
 				e.Add[i] = jsonNull{}
+			} else {
+				// Patch places added values in the result by reference and a
+				// later hunk may write below them.
+				e.Add[i] = cloneNode(e.Add[i])
 			}
 		}
 		withNulls[j] = e
@@ -294,4 +298,42 @@ func (d Diff) RenderMerge() (string, error) {
 		return "", err
 	}
 	return mergePatch.Json(), nil
+}
+
+// cloneNode returns a copy of n which shares no containers with n.
+func cloneNode(n JsonNode) JsonNode {
+	switch t := n.(type) {
+	case jsonObject:
+		c := make(jsonObject, len(t))
+		for k, v := range t {
+			c[k] = cloneNode(v)
+		}
+		return c
+	case jsonArray:
+		c := make(jsonArray, len(t))
+		for i, v := range t {
+			c[i] = cloneNode(v)
+		}
+		return c
+	case jsonList:
+		c := make(jsonList, len(t))
+		for i, v := range t {
+			c[i] = cloneNode(v)
+		}
+		return c
+	case jsonSet:
+		c := make(jsonSet, len(t))
+		for i, v := range t {
+			c[i] = cloneNode(v)
+		}
+		return c
+	case jsonMultiset:
+		c := make(jsonMultiset, len(t))
+		for i, v := range t {
+			c[i] = cloneNode(v)
+		}
+		return c
+	default:
+		return n
+	}
 }
